@@ -53,8 +53,9 @@ class _Scripted(Exception):
     pass
 
 
-def run_real(case: dict) -> dict:
-    """Runs the real loop in this thread; returns the events it put and the actions it performed."""
+def run_real(case: dict, via_consumer: bool = False) -> dict:
+    """Runs the real loop (in this thread, or - via_consumer - as the thread started by the real stateful.execute whose consumer
+    loop then yields the events); returns the events it put and the actions it performed."""
     import hypothesis
     from hypothesis.control import BuildContext
     from hypothesis.errors import Flaky, Unsatisfiable
@@ -186,15 +187,52 @@ def run_real(case: dict) -> dict:
             raise _Scripted("run error")
 
     err = None
-    try:
-        X.execute_state_machine_loop(state_machine=Base, event_queue=q, engine=engine)
-    except BaseException as exc:  # the thread would die with this
-        err = repr(exc)
-    evs = []
-    while not q.empty():
-        evs.append(q.get())
+    phase_status = None
+    if via_consumer:
+        from unittest import mock
+
+        from schemathesis.engine.phases import Phase, PhaseName
+        from schemathesis.engine.phases import stateful as ST
+
+        died = []
+        real_loop = X.execute_state_machine_loop
+
+        def loop(**kw):
+            qq = kw["event_queue"]              # the queue the real consumer created: count its puts as actions too
+            inner = qq.put
+
+            def counted_put(item, *a, _inner=inner, **k):
+                action("put")
+                return _inner(item, *a, **k)
+
+            qq.put = counted_put
+            try:
+                real_loop(**kw)
+            except BaseException as exc:
+                died.append(repr(exc))
+                raise
+
+        phase = Phase(name=PhaseName.STATEFUL_TESTING, is_supported=True, is_enabled=True)
+        evs = []
+        with mock.patch.object(type(schema), "as_state_machine", lambda self: Base), mock.patch.object(X, "execute_state_machine_loop", loop), \
+                mock.patch.object(threading, "excepthook", lambda args: None):
+            for ev in ST.execute(engine, phase):
+                if type(ev).__name__ == "PhaseFinished":
+                    phase_status = ev.status.name
+                else:
+                    evs.append(ev)
+        err = died[0] if died else None
+    else:
+        try:
+            X.execute_state_machine_loop(state_machine=Base, event_queue=q, engine=engine)
+        except BaseException as exc:  # the thread would die with this
+            err = repr(exc)
+        evs = []
+        while not q.empty():
+            evs.append(q.get())
     return {"events": canon_events(evs), "actions": actions, "bodies": bodies, "stop_set": stop_event.is_set(),
-            "limit": control.has_reached_the_failure_limit, "counter": control._failures_counter, "died": err}
+            "limit": control.has_reached_the_failure_limit, "counter": control._failures_counter, "died": err,
+            "phase_status": phase_status}
 
 
 def canon_events(evs) -> list:
@@ -308,7 +346,9 @@ def stage(chk, n: int, what: str = "stateful producer") -> dict:
     import json as _json
 
     cases = [_json.loads(p.read_text()) for p in sorted(corpus)] + [gen_case(rng) for _ in range(n)]
-    reals = [run_real(c) for c in cases]
+    for k, c in enumerate(cases):
+        c.setdefault("via_consumer", k % 3 == 0)       # every third case runs through the real stateful.execute consumer
+    reals = [run_real(c, c["via_consumer"]) for c in cases]
     models = core.coq_eval(["C11.Model_C11", "C11.ModelP_C11"], [model_expr(c, len(r["actions"])) for c, r in zip(cases, reals)])
     bad = 0
     stops = 0
@@ -330,6 +370,9 @@ def stage(chk, n: int, what: str = "stateful producer") -> dict:
             bad += 1
             chk.disagree(f"{what}: step bodies / final flags vs ModelP_C11", c,
                          [r["bodies"], r["stop_set"], r["limit"], r["counter"]], [list(m[1]), m[2], mstop, mlimit, mcounter])
+        if r["phase_status"] is not None and r["phase_status"] != str(mstatus):
+            bad += 1
+            chk.disagree(f"{what}: PhaseFinished status of stateful.execute vs ModelP_C11.phase_status", c, r["phase_status"], str(mstatus))
         d = ref_nesting(r["events"])
         if d is not None:
             bad += 1
